@@ -6,6 +6,8 @@
     files, an empty directory, a directory with an unreadable entry and a missing path.
  2. spec -> impl: every (command, argument sequence) TLC enumerated is run as a real process; exit status,
     OK line and the set of (code, file) must equal the specification's observation.
+ 4. impl -> spec: random argument lists of 4 - 8 paths (beyond the exhaustive bound) are run and validated by TLC against
+    Cli.tla (CliTrace.tla).
  3. relational, independent of the class expectations: invocations with the same command and the same
     denotation (directory vs list of its files, permuted / repeated arguments) must agree on
     (exit, OK, located diagnostics); check's own contract is evaluated on every run.
@@ -36,13 +38,59 @@ def contract(cmd, o):
     return None
 
 
+def long_invocations(rep, cov, root, tier):
+    """implementation -> specification: random argument lists LONGER than the exhaustive bound (4 - 8 arguments, repeated
+    and overlapping paths, every command) are run and the recorded runs validated by TLC against Cli.tla (CliTrace.tla)"""
+    import json
+    import random
+    rng = random.Random(vlib.SEED + 13)
+    paths = sorted(clidrv.DISK["dirof"]) + list(clidrv.DISK["dirs"]) + ["?missing"]
+    n = 400 if tier == "quick" else 8000
+    invs = []
+    for _ in range(n):
+        k = rng.randrange(4, 9)
+        pool = [p for p in paths if p != "?missing" and p != "dD"] if rng.random() < 0.8 else paths
+        invs.append((rng.choice(["check", "check", "echo", "tokenize"]), tuple(rng.choice(pool) for _ in range(k))))
+    obs = clidrv.run_many(root, invs)
+    wd = vlib.workdir("c13_trace")
+    nchunks = 4
+    paths_out = []
+    lines = [[] for _ in range(nchunks)]
+    for tid, ((cmd, args), o) in enumerate(zip(invs, obs)):
+        c = lines[tid % nchunks]
+        c.append({"ev": "run", "tid": tid, "cmd": cmd, "args": list(args)})
+        c.append({"ev": "obs", "rc": o["rc"] if o["rc"] is not None else -9, "ok": bool(o["ok"]), "diags": [list(d) for d in o["diags"]]})
+    for k, ls in enumerate(lines):
+        p = os.path.join(wd, "c%d.ndjson" % k)
+        with open(p, "w") as fh:
+            for e in ls:
+                fh.write(json.dumps(e) + "\n")
+        paths_out.append(p)
+    from concurrent.futures import ThreadPoolExecutor
+    with ThreadPoolExecutor(max_workers=nchunks) as ex:
+        vals = list(ex.map(lambda p: vlib.tlc_trace("CliTrace.tla", "CliTrace.cfg", p), paths_out))
+    nbad = 0
+    for v in vals:
+        cov["states"] += v["states"]
+        cov["transitions"] += v["transitions"]
+        for tid, recno in v["bad"]:
+            nbad += 1
+            cmd, args = invs[tid]
+            rep.add("trace-rejected:%s" % cmd, labels={cmd, "long-invocation"},
+                    detail={"args": list(args), "observed": obs[tid]},
+                    replay={"cmd": cmd, "args": [clidrv.path_of(a) for a in args], "disk": "drivers/clidrv.py make_disk"})
+    cov["long_invocations_validated_by_CliTrace"] = n
+    cov["long_invocations_rejected"] = nbad
+    cov["traces_validated_against_impl"] += n
+
+
 def main():
     tier = sys.argv[1] if len(sys.argv) > 1 else vlib.TIER
     vlib.TIER = tier
     vlib.build()
     rep = vlib.Report("C13")
     cov = {"states": 0, "transitions": 0, "traces_validated_against_impl": 0, "samples": [], "tlc_runs": []}
-    cfg = "MC_Cli_2.cfg" if tier == "quick" else "MC_Cli_3.cfg"
+    cfg = "MC_Cli_3.cfg" if tier == "quick" else "MC_Cli_4.cfg"
     r = vlib.tlc_check("MC_Cli.tla", cfg, workers=8, coverage=(tier == "quick"))
     cov["states"] += r["states"]
     cov["transitions"] += r["transitions"]
@@ -88,7 +136,11 @@ def main():
         ngroups += 1
         ref_args, ref = members[0]
         for args, o in members[1:]:
-            same = (o["rc"] == ref["rc"] and o["ok"] == ref["ok"] and (cmd == "tokenize" or sorted(set(map(tuple, o["located"]))) == sorted(set(map(tuple, ref["located"])))))
+            # which of several semantically faulty files is named is not specified (the rule stops at its first hit)
+            one_sem = sum(1 for f in d if clidrv.DISK["classof"].get(f) == "S") <= 1
+            same = (o["rc"] == ref["rc"] and o["ok"] == ref["ok"] and
+                    (cmd == "tokenize" or (sorted(set(map(tuple, o["located"]))) == sorted(set(map(tuple, ref["located"]))) if one_sem
+                                           else sorted(set(x[0] for x in o["located"])) == sorted(set(x[0] for x in ref["located"])))))
             if not same:
                 rep.add("same-denotation-different-result:%s" % cmd, labels={cmd, "relational"},
                         detail={"a": {"args": list(ref_args), "obs": ref}, "b": {"args": list(args), "obs": o}},
@@ -116,12 +168,13 @@ def main():
                         detail={"args": list(args), "check": sorted(ref), cmd: sorted(got)},
                         replay={"cmd": cmd, "args": [clidrv.path_of(a) for a in args]})
     cov["cross_command_position_comparisons"] = ncross
+    long_invocations(rep, cov, root, tier)
     cov["invocations"] = len(keys)
     cov["traces_validated_against_impl"] = len(keys)
     cov["denotation_groups_compared"] = ngroups
     cov["samples"].append({"cmd": keys[len(keys) // 2][0], "args": list(keys[len(keys) // 2][1]), "expected": expect[keys[len(keys) // 2]]})
     cov["exhaustive"] = True
-    cov["rule"] = "every argument sequence up to length %d over 7 files, 6 directories and a missing path x {check, echo, tokenize}" % (2 if tier == "quick" else 3)
+    cov["rule"] = "every argument sequence up to length %d over 9 files (two with names that differ in letter case only), 7 directories and a missing path x {check, echo, tokenize}" % (3 if tier == "quick" else 4)
     return rep.finish("model_checking", cov, assumptions=[
         "an unreadable file is realised as a sub-directory entry (the sandbox runs as root, permission bits do not bite)",
         "coded diagnostic = a line 'error[Pnnnn]' on stderr after stripping ANSI colour"])
